@@ -20,6 +20,7 @@ def run(prog, chk):
     prepend_table(prog, chk)
     close_table(prog, chk)
     process_table(prog, chk)
+    addleaf_table(prog, chk)
     _run(prog, chk)
 
 
@@ -615,3 +616,72 @@ def process_table(prog, chk):
                 what = ("expected an error, the caller's node neither released nor left linked, local nodes %s released once each; source: status %s, released %s%s, "
                         "caller's node parent %s" % (sorted(made), hex(q.ret) if isinstance(q.ret, int) else q.ret, freed, (" (twice: %s)" % twice) if twice else "", I.read(q, "N->parent")))
             chk.ob("C16.process", inst, ok, what, loc=fp.loc(), fn=fp, nontrivial=fail is not None and nj >= 2)
+
+
+def addleaf_table(prog, chk):
+    """KSI_BlockSigner_addLeaf either adds the leaf (tree, mask chain, handle) or changes nothing: evaluated for every step failing in
+    turn, the tree insertion failing both before and after the masking processor has advanced signer->prevLeaf.  After an error
+    return the leaf is not in the tree and the previous-leaf value is the one the call found; after KSI_OK the leaf was inserted
+    exactly once and the handle refers to it."""
+    from ksirules.interp import TOP, Interp, Ptr, succeed_model
+    from ksirules.model import AnalysisBroken, lvalue_key, strip
+    chk.rule("C16.addleaf", "block signer addLeaf is all-or-nothing: a failing step leaves neither a leaf in the tree nor an advanced mask chain "
+                            "(decision table over failure points)", floor=6)
+    fn = prog.fn("KSI_BlockSigner_addLeaf", "blocksigner.c")
+    sp, hp, lp, mp, op = [p["n"] for p in fn.params]
+    steps = [None, "KSI_DataHash_extract", "untrusted", "KSI_BlockSignerHandle_new", "insert:before-masking", "insert:after-masking"]
+    for fail, want_handle in [(f, w) for f in steps for w in (1, 0)]:
+        inserted = []
+
+        def extract(I, p, node, args):
+            out = strip(node["a"][1])
+            if out.get("k") == "un":
+                I.write(p, lvalue_key(out["e"], I.fn), 1)
+            return 0x200 if fail == "KSI_DataHash_extract" else 0
+
+        def hnew(I, p, node, args):
+            if fail == "KSI_BlockSignerHandle_new":
+                return 0x200
+            I.write(p, lvalue_key(strip(node["a"][1])["e"], I.fn), Ptr("HANDLE"))
+            I.write(p, "HANDLE->leafHandle", 0)
+            I.write(p, "HANDLE->signer", 0)
+            I.write(p, "HANDLE->ref", 1)
+            return 0
+
+        def insert(I, p, node, args):
+            if args[0] != Ptr("BUILDER"):
+                return TOP
+            if fail != "insert:before-masking":
+                # the masking processor has replaced the previous-leaf value (its last step) ...
+                I.write(p, "S->prevLeaf", Ptr("ADVANCED"))
+            if fail in ("insert:before-masking", "insert:after-masking"):
+                return 0x200        # ... and a later step of the insertion failed
+            inserted.append(args[1])
+            I.write(p, lvalue_key(strip(node["a"][3])["e"], I.fn), Ptr("LEAFH"))
+            return 0
+        ov = {"KSI_DataHash_extract": extract, "KSI_isHashAlgorithmTrusted": lambda I, p, n, a: 0 if fail == "untrusted" else 1,
+              "KSI_BlockSignerHandle_new": hnew, "KSI_TreeBuilder_addDataHash": insert, "KSI_DataHash_ref": lambda I, p, n, a: a[0],
+              "KSI_BlockSignerHandle_ref": lambda I, p, n, a: a[0], "KSI_DataHash_free": lambda I, p, n, a: TOP,
+              "KSI_BlockSignerHandle_free": lambda I, p, n, a: TOP, "KSI_TreeLeafHandle_free": lambda I, p, n, a: TOP}
+        inputs = {sp: Ptr("S"), hp: Ptr("HASH"), lp: 0, mp: Ptr("META"), op: Ptr("OUT") if want_handle else 0, "S->ctx": Ptr("ctx"), "S->builder": Ptr("BUILDER"),
+                  "S->prevLeaf": Ptr("PREV"), "S->metaData": 0, "S->iv": Ptr("IV")}
+        I = Interp(fn, inputs=inputs, call_model=succeed_model(prog, ov), on_unknown="stop", prog=prog)
+        paths = I.run()
+        chk.paths += len(paths)
+        inst = "addLeaf[%s,%s]" % ("nothing fails" if fail is None else fail + " fails", "handle wanted" if want_handle else "no handle wanted")
+        if len(paths) != 1 or paths[0].undetermined or paths[0].ret is TOP:
+            raise AnalysisBroken("KSI_BlockSigner_addLeaf: evaluation not determined for %s: %s" % (inst, [q.undetermined[:1] for q in paths]))
+        q = paths[0]
+        prev = I.read(q, "S->prevLeaf")
+        out = [t[2] for t in q.stores("*" + op)] + [t[2] for t in q.stores("OUT")]
+        meta = I.read(q, "S->metaData")
+        if fail is None:
+            ok = q.ret == 0 and inserted == [Ptr("HASH")] and prev == Ptr("ADVANCED") and I.read(q, "HANDLE->leafHandle") == Ptr("LEAFH") and \
+                (out[-1:] == [Ptr("HANDLE")] if want_handle else not out) and meta == 0
+            what = "expected KSI_OK, the leaf inserted once, the mask chain advanced, the handle bound to the leaf; source: status %s, inserted %s, previous leaf %s, handle's leaf %s, handed out %s" % (
+                q.ret, inserted, prev, I.read(q, "HANDLE->leafHandle"), out)
+        else:
+            ok = q.ret != 0 and not inserted and prev == Ptr("PREV") and not any(v not in (0, None) for v in out) and meta == 0
+            what = "expected an error, no leaf in the tree, the previous-leaf value as found (&PREV), nothing handed out; source: status %s, inserted %s, previous leaf %s, handed out %s" % (
+                hex(q.ret) if isinstance(q.ret, int) else q.ret, inserted, prev, out)
+        chk.ob("C16.addleaf", inst, ok, what, loc=fn.loc(), fn=fn, nontrivial=fail is not None)
